@@ -11,6 +11,29 @@ fn main() {
         std::process::exit(2);
     }
     let sub = args[1].clone();
+    if sub == "cutmcase" {
+        // vh cutmcase <cut case line...>: trace, scenario for the model and abstract results of one case
+        println!("{}", vharness::cutm::show(&args[2..].join(" ")));
+        return;
+    }
+    if sub == "lazy" {
+        // vh lazy <hex of one encoded value>: read it as (LazyValue, u8) from a two-element list
+        let bytes = vharness::val::unhex(&args[2]).expect("hex");
+        let mut lst = vec![0xd0u8];
+        lst.extend(((bytes.len() + 2 + 4) as u32).to_be_bytes());
+        lst.extend(2u32.to_be_bytes());
+        lst.extend_from_slice(&bytes);
+        lst.extend_from_slice(&[0x50, 0x2a]);
+        match serde_amqp::from_slice::<(serde_amqp::lazy::LazyValue, u8)>(&lst) {
+            Ok((l, m)) => println!("OK octets={} marker={:#x}", vharness::val::hex(l.as_slice()), m),
+            Err(e) => println!("ERR {:?}", e),
+        }
+        match serde_amqp::from_reader::<(serde_amqp::lazy::LazyValue, u8)>(&lst[..]) {
+            Ok((l, m)) => println!("io: OK octets={} marker={:#x}", vharness::val::hex(l.as_slice()), m),
+            Err(e) => println!("io: ERR {:?}", e),
+        }
+        return;
+    }
     if sub == "txnmcase" {
         // vh txnmcase '<script>': concrete and abstract trace of one `txnm` script
         let script = args[2..].join(" ");
@@ -45,6 +68,16 @@ fn main() {
         let t = vharness::cut::run_case(&line);
         println!("{}", t);
         for v in vharness::cut::direct_oracle(&line, &t) {
+    if sub == "lifecase" {
+        // vh lifecase '<script>': trace and oracle verdict of one session+link script
+        let script = args[2..].join(" ");
+        let t = vharness::life::run_script(&script);
+        println!("{}", t);
+        for v in vharness::life::direct_oracle(&script, &t) {
+            println!("VIOLATION {}", v);
+        }
+        return;
+    }
             println!("VIOLATION {}", v);
         }
         return;
@@ -114,6 +147,8 @@ fn main() {
         "life" => vharness::life::run(seed, n, thorough, &corpus, &dir),
         "lifem" => vharness::life::run_model(seed, n, thorough, &corpus, &dir),
         "lifel" => vharness::life::run_link_model(seed, n, thorough, &corpus, &dir),
+        "lifer" => vharness::life::run_recv_link_model(seed, n, thorough, &corpus, &dir),
+        "lifex" => vharness::life::run_rx(seed, n, thorough, &corpus, &dir),
         "lifeq" => vharness::life::run_flush(&dir),
         "c05" => vharness::c05::run(seed, n, thorough, &corpus, &dir),
         "txc" => vharness::txc::run(seed, n, thorough, &corpus, &dir),
@@ -121,6 +156,7 @@ fn main() {
         "txn" => vharness::txn::run(seed, n, thorough, &corpus, &dir),
         "txnm" => vharness::txn::run_model(seed, n, thorough, &corpus, &dir),
         "cut" => vharness::cut::run(seed, n, thorough, &corpus, &dir),
+        "cutm" => vharness::cutm::run(seed, n, thorough, &corpus, &dir),
         "e2e" => vharness::e2e::run(seed, n, thorough, &corpus, &dir),
         "hostile" => vharness::hostile::run(seed, n, thorough, &corpus, &dir),
         "sasl" => vharness::sasl::run(seed, n, thorough, &corpus, &dir),
